@@ -469,6 +469,16 @@ func explore(t *testing.T, p *Prop, tier string) {
 					// the property: the violation is what gets reported, after replay.
 					sum.Probes["nondeterministic-code-under-test-with-violation"]++
 				} else {
+					if d := os.Getenv("VSIM_NONDET_DUMP"); d != "" && len(sum.NonDet) < 2 {
+						// debugging aid: the two event logs side by side
+						for i := 0; i < 2; i++ {
+							r3 := runOne(t, p, rt.NewGenTape(rs), tier, true, idx)
+							if r3.out != nil {
+								os.WriteFile(fmt.Sprintf("%s/nondet-%d-%d.txt", d, idx, i), []byte(strings.Join(traceOf[r3.out], "\n")+"\n"), 0o644)
+								delete(traceOf, r3.out)
+							}
+						}
+					}
 					if len(sum.NonDet) < 5 {
 						sum.NonDet = append(sum.NonDet, fmt.Sprintf("NONDETERMINISM run %d seed %d: event log %x vs %x", idx, rs, o.EventHash, r2.out.EventHash))
 					}
